@@ -838,6 +838,16 @@ const ERRORS: [&str; 8] = ["#DIV/0!", "#N/A", "#NAME?", "#NULL!", "#NUM!", "#REF
 fn gen_text(rng: &mut Rng) -> String {
     match rng.below(100) {
         0..=14 => WHOLE[rng.below(WHOLE.len() as u64) as usize].to_string(),
+        20..=22 => {
+            // long texts of equal length that differ in one place only (end / start / middle): an interning
+            // key that does not look at the whole text would merge two of them (cf. C12 `tok_text`)
+            let d = rng.below(3);
+            match rng.below(3) {
+                0 => format!("{}{}", "L".repeat(1100), d),
+                1 => format!("{}{}", d, "M".repeat(1100)),
+                _ => format!("{}{}{}", "A".repeat(700), d, "B".repeat(700)),
+            }
+        }
         15..=19 => {
             // only blanks
             (0..rng.range(1, 3)).map(|_| *rng.pick(&BLANKS[..])).collect::<String>()
